@@ -21,6 +21,8 @@ func (impl Implementation) Dlantb(norm lapack.MatrixNorm, uplo blas.Uplo, diag b
 		panic(badNorm)
 	case uplo != blas.Upper && uplo != blas.Lower:
 		panic(badUplo)
+	case diag != blas.NonUnit && diag != blas.Unit:
+		panic(badDiag)
 	case n < 0:
 		panic(nLT0)
 	case k < 0:
